@@ -36,6 +36,8 @@ type lexSSAModel struct {
 	outer    *ssa.Function // exported token function
 	inside   *ssa.Function // token function used inside a tag
 	skipper  *ssa.Function // whitespace skipper
+	// skipWrappers: functions that run the skipper first and then loop over comments (walked in line)
+	skipWrappers map[*ssa.Function]bool
 	scanners map[*ssa.Function]string
 	hasLoop  map[*ssa.Function]bool
 	tokType  *types.Named
@@ -209,6 +211,33 @@ func (w *World) lexSSA() *lexSSAModel {
 				lm.skipper = f
 			}
 		}
+		// a skipper that itself begins by running another of the cursor loops (skip whitespace, then - in a
+		// loop - comments and whitespace again) is a wrapper: the inner one is the whitespace skipper, the
+		// wrapper is walked in line like a part of the token function
+		for i := 0; i < 3 && lm.skipper != nil; i++ {
+			pw := &pathWalker{maxPaths: 2000, stopCall: func(p *pwPath, fr *ssa.Function, c *ssa.Call) bool { return true }}
+			pw.walk(lm.skipper)
+			inner := map[*ssa.Function]int{}
+			n := 0
+			for _, p := range pw.paths {
+				n++
+				if p.end == "stop" && len(p.events) > 0 && len(p.decisions) == 0 {
+					if c, ok := p.events[len(p.events)-1].(*ssa.Call); ok && isVoidLoop[c.Call.StaticCallee()] && c.Call.StaticCallee() != lm.skipper {
+						inner[c.Call.StaticCallee()]++
+					}
+				}
+			}
+			if len(inner) != 1 || n != 1 {
+				break
+			}
+			for f := range inner {
+				if lm.skipWrappers == nil {
+					lm.skipWrappers = map[*ssa.Function]bool{}
+				}
+				lm.skipWrappers[lm.skipper] = true
+				lm.skipper = f
+			}
+		}
 	}
 	return lm
 }
@@ -354,6 +383,9 @@ func (lm *lexSSAModel) inlinePolicy(root *ssa.Function) func(caller, callee *ssa
 		if pkgOf(callee) == nil || pkgOf(callee) != root.Pkg {
 			return false
 		}
+		if lm.skipWrappers[callee] {
+			return true // its loops are walked like loops of the token function itself
+		}
 		if lm.hasLoop[callee] || funcHasLoop(callee) {
 			return false
 		}
@@ -366,7 +398,7 @@ func (lm *lexSSAModel) inlinePolicy(root *ssa.Function) func(caller, callee *ssa
 // another token"); the path is cut there and summarised like a recursive call.
 func (lm *lexSSAModel) redispatchStop(fn *ssa.Function) func(p *pwPath, fr *ssa.Function, c *ssa.Call) bool {
 	return func(p *pwPath, fr *ssa.Function, c *ssa.Call) bool {
-		if fr != fn || fn != lm.inside || c.Call.StaticCallee() != lm.skipper || lm.skipper == nil {
+		if (fr != fn && !lm.skipWrappers[fr]) || fn != lm.inside || c.Call.StaticCallee() != lm.skipper || lm.skipper == nil {
 			return false
 		}
 		reads, scanned := lm.moves(p, len(p.events))
